@@ -909,3 +909,7 @@ def check(ctx):
     check_lookup_helper(ctx)
     check_opts(ctx)
     check_parse(ctx)
+    # the file's layer is what the file says *now*: the loader applies what
+    # it read unless the cache says the file has not changed (= C10.PAIR)
+    from . import c10
+    ctx.borrow('C09.MODES', c10.check_pair, only=['C10.PAIR'])
